@@ -165,7 +165,7 @@ func runCheck(id, tier string, args []string) (code int) {
 	fns := map[string]bool{}
 	callSites, pkgs := 0, 0
 	for _, tags := range variants {
-		p, err := eng.Load(eng.LoadOpts{RepoDir: o.repo, Tags: tags, Overlay: o.overlay})
+		p, err := eng.Load(eng.LoadOpts{RepoDir: o.repo, Tags: tags, Overlay: o.overlay, AllowUnusedOverlay: true})
 		if err != nil {
 			return undecidedExit("load failed: " + strings.ReplaceAll(err.Error(), "\n", " "))
 		}
